@@ -74,9 +74,14 @@ class _Inline(ast.NodeTransformer):
         if env is None:
             return node
         ps = [p for p in paths(target.node) if p.ret is not RAISE]
-        if len(ps) != 1 or ps[0].ret is None:
+        if not ps or any(p.ret is None for p in ps) or len(ps) > 8:
             return node
-        body = ps[0].ret
+        if len(ps) == 1:
+            body = ps[0].ret
+        else:
+            body = _ifexp_tree([([(g, pol) for g, pol, kind in p.guards if kind in ("if",)], p.ret) for p in ps])
+            if body is None:
+                return node
         if recv == "self.domain":
             # inside the helper `self` is the wrapped domain
             body = subst(body, {"self": ast.Attribute(value=ast.Name(id="self", ctx=ast.Load()), attr="domain", ctx=ast.Load())})
@@ -91,3 +96,66 @@ def expand_helpers(repo: Repo, ci: ClassInfo, expr: ast.AST, domain_cls: Optiona
         return None
     accept = accept or (lambda fi: fi.name.startswith("_") and not fi.name.startswith("__"))
     return _Inline(repo, ci, domain_cls, depth, accept).visit(copy.deepcopy(expr))
+
+
+def _ifexp_tree(items):
+    """[(guards [(expr, pol)...], ret)] -> nested IfExp on the shared decision sequence (None if not a tree)"""
+    if len(items) == 1:
+        return items[0][1]
+    firsts = [it[0][0] if it[0] else None for it in items]
+    if any(f is None for f in firsts):
+        return None
+    key = ast.dump(firsts[0][0])
+    if any(ast.dump(f[0]) != key for f in firsts):
+        return None
+    yes = [(g[1:], r) for g, r in items if g[0][1]]
+    no = [(g[1:], r) for g, r in items if not g[0][1]]
+    if not yes or not no:
+        return _ifexp_tree(yes or no)
+    a, b = _ifexp_tree(yes), _ifexp_tree(no)
+    if a is None or b is None:
+        return None
+    return ast.IfExp(test=copy.deepcopy(firsts[0][0]), body=a, orelse=b)
+
+
+def variants(expr: ast.AST, limit: int = 64):
+    """resolve every IfExp both ways: -> [(extra guards [(test, polarity)], expression without that IfExp)]"""
+    out = [([], expr)]
+    changed = True
+    while changed:
+        changed = False
+        nxt = []
+        for guards, e in out:
+            target = next((n for n in ast.walk(e) if isinstance(n, ast.IfExp)), None)
+            if target is None:
+                nxt.append((guards, e))
+                continue
+            changed = True
+            for pol, branch in ((True, target.body), (False, target.orelse)):
+                # consistent with earlier decisions on the same test
+                prev = [p for t, p in guards if ast.dump(t) == ast.dump(target.test)]
+                if prev and prev[0] != pol:
+                    continue
+                nxt.append((guards + [(target.test, pol)], _replace(e, target, branch)))
+        out = nxt
+        if len(out) > limit:
+            break
+    return out
+
+
+def _replace(root: ast.AST, old: ast.AST, new: ast.AST) -> ast.AST:
+    class R(ast.NodeTransformer):
+        def visit(self, node):
+            if node is old:
+                return copy.deepcopy(new)
+            return super().visit(node)
+    # operate on a copy that keeps identity mapping: find by position in walk order
+    idx = [i for i, n in enumerate(ast.walk(root)) if n is old]
+    cp = copy.deepcopy(root)
+    tgt = list(ast.walk(cp))[idx[0]]
+    class R2(ast.NodeTransformer):
+        def visit(self, node):
+            if node is tgt:
+                return copy.deepcopy(new)
+            return super().visit(node)
+    return R2().visit(cp)
